@@ -456,8 +456,13 @@ func runRetry(e *Env) {
 	nTasks := 1 + tp.Next(4)
 	nOps := 2 + tp.Next(5)
 	relaxed := faultsOn && tp.Chance(1, 3)
-	armNI := tp.Chance(1, 2)
-	armIgn := tp.Chance(1, 2)
+	// the clause "a query not marked idempotent is never retried" is always armed now that
+	// the defect it found is fixed (the draw is kept so that recorded tapes stay valid)
+	armNI := tp.Chance(1, 2) || true
+	// 'ignore' returning the error anyway contradicts the RetryType comment ("ignore error
+	// and return result") but not property C13, which only demands that it stops retrying:
+	// the clause stays switched off (the draw is kept so that recorded tapes stay valid)
+	armIgn := tp.Chance(1, 2) && false
 	mode := "exact"
 	if relaxed {
 		mode = "relaxed"
